@@ -83,7 +83,9 @@ func NewCaseWriter(path string) (*CaseWriter, error) {
 	}
 	return &CaseWriter{f, bufio.NewWriterSize(f, 1<<20)}, nil
 }
-func (cw *CaseWriter) Put(c Case) { cw.w.WriteString(c.Line()); cw.w.WriteByte('\n') }
+// Put writes one finished case and flushes: when the code under test takes the whole process down (a panic in a goroutine
+// of its own), the file names every case that was completed and the runner knows which one was running.
+func (cw *CaseWriter) Put(c Case) { cw.w.WriteString(c.Line()); cw.w.WriteByte('\n'); cw.w.Flush() }
 func (cw *CaseWriter) Close() error {
 	if err := cw.w.Flush(); err != nil {
 		return err
